@@ -338,7 +338,7 @@ def strat_recurrence():
         st.integers(0, 169).map(lambda n: {"rel": "Factorial(n+1)=(n+1)Factorial(n)", "args": [fhex(float(n))]}),
         st.tuples(st.floats(0.1, 30), st.integers(1, 5)).map(lambda t: {"rel": "Mlgamma=log Mgamma", "args": [fhex(t[0]), fhex(float(t[1]))]}),
     ]
-    return st.one_of(*opts)
+    return st.one_of(*opts).filter(lambda c: normal_floats([unhex(a) for a in c["args"]]))
 
 
 ASPECTS = {
@@ -346,7 +346,32 @@ ASPECTS = {
     "special_recurrences": (strat_recurrence(), check_recurrence),
 }
 
-WITNESSES = {}
+def _rel(srv, fn, args, ints, ref):
+    r = srv.ask({"k": "special", "fn": fn, "args": [fhex(a) for a in args], "ints": list(ints)})
+    if "r" not in r:
+        return float("inf"), str(r)
+    got = unhex(r["r"][0])
+    if math.isnan(got):
+        return float("inf"), "NaN"
+    return abs(got - ref) / abs(ref), repr(got)
+
+
+def _wit(fid, fn, args, ints, ref, tol=1e-9):
+    def w(srv):
+        e, d = _rel(srv, fn, args, ints, ref)
+        return fid, e > tol, "%s%s = %s (reference %r)" % (fn, tuple(args) + tuple(ints), d, ref)
+    return w
+
+
+WITNESSES = {
+    "polygamma_bernoulli": _wit("C13/polygamma-asymptotic-series-uses-B_k", "Polygamma", [2.0], [2], -0.4041138063191885708),
+    "sumseries_init": _wit("C13/sumseries-ignores-its-initial-value", "GammaP", [0.25, 0.25], [], 0.7436779447314611),
+    "temme_phi": _wit("C13/temme-expansion-sign-of-sigma", "GammaP", [21.0, 15.75], [], 0.11829093330218296504),
+    "gamma_at_zero": (lambda srv: ("C13/incomplete-gamma-nan-at-z-0", math.isnan(unhex(srv.ask({"k": "special", "fn": "GammaP", "args": [fhex(0.01171875), fhex(0.0)], "ints": []}).get("r", ["NaN"])[0])), "GammaP(0.0117, 0)")),
+    "gamma_tiny_z": _wit("C13/incomplete-gamma-tiny-z-variants-swapped", "GammaLower", [1.5, 3.754836445209773e-184], [], 4.8505979377778469364e-276),
+    "gamma_p_derivative_subnormal": _wit("C13/gamma-p-derivative-subnormal-prefix", "GammaPfirstDerivative", [8.0, 1.2374511831283965e-39], [], 8.8158864986021969731e-277),
+    "logsub_cancellation": _wit("C13/logsub-cancellation", "LogSub", [0.0, -1e-8], [], -18.420680748952367, tol=1e-12),
+}
 
 if __name__ == "__main__":
     sys.exit(main(ASPECTS, WITNESSES))
